@@ -14,6 +14,7 @@ use std::sync::atomic::Ordering;
 use std::sync::Arc;
 
 pub const COUNTERS: &[&str] = &[
+    "walk_histories",
     "menu_histories", "menu_operations", "menu_claimable_states", "menu_claims_executed", "menu_illegal_menu_moves_refused",
     "filler_histories", "filler_plies", "filler_boundary_claims_executed", "filler_claimable_plies", "filler_deviations_pawn", "filler_deviations_capture",
     "filler_deviations_rook_loses_right", "filler_deviations_king_loses_rights", "filler_deviations_castle", "filler_deviations_offer", "filler_deviations_pawn_capture", "filler_deviations_promotion", "filler_long_histories", "filler_terminal_moves_tried", "filler_event_slots_unavailable", "t3_tolerated",
@@ -233,6 +234,9 @@ pub const FILLER_ROOTS: &[&str] = &[
 ];
 
 fn run_history(run: &Run, start: &RefPos, hist: &[GOp], devs: &[(usize, Event)]) {
+    run_history_ext(run, start, hist, &format!("{:?}", devs), false)
+}
+fn run_history_ext(run: &Run, start: &RefPos, hist: &[GOp], label: &str, claim_everywhere: bool) {
     let mut refg = RefGame::new(*start);
     let mut lib = match new_game(start) {
         Ok(g) => g,
@@ -242,12 +246,13 @@ fn run_history(run: &Run, start: &RefPos, hist: &[GOp], devs: &[(usize, Event)])
         }
     };
     let mut ops: Vec<GOp> = vec![];
+    let mut prev_claim = Tri::No;
     run.add("filler_histories", 1);
     run.states.fetch_add(1, Ordering::Relaxed);
     for op in hist {
         let op = *op;
         ops.push(op);
-        guard::crumb_text(&format!("filler history from {} deviations {:?} ply {}", start.fen(), devs, ops.len()));
+        guard::crumb_text(&format!("filler history from {} deviations {} ply {}", start.fen(), label, ops.len()));
         run.transitions.fetch_add(1, Ordering::Relaxed);
         run.add("filler_plies", 1);
         match step(&mut refg, &mut lib, &op) {
@@ -266,7 +271,10 @@ fn run_history(run: &Run, start: &RefPos, hist: &[GOp], devs: &[(usize, Event)])
         if refg.claimable() == Tri::Yes {
             run.add("filler_claimable_plies", 1);
         }
-        if (95..=104).contains(&clock) {
+        let claim_now = refg.claimable();
+        let changed = claim_now != prev_claim;
+        prev_claim = claim_now;
+        if (95..=104).contains(&clock) || (claim_everywhere && changed) {
             // execute the claim on a clone: return value, result, frozen afterwards
             let (mut r2, mut l2) = (refg.clone(), lib.clone());
             ops.push(GOp::Declare);
@@ -319,7 +327,97 @@ fn run_history(run: &Run, start: &RefPos, hist: &[GOp], devs: &[(usize, Event)])
     }
 }
 
-pub const RULE: &str = "Regime A (repetition): 8 roots, each with a fixed menu of 7-10 moves (knight and king shuffles; rooks/kings leaving and re-entering home squares so that placement repeats with different rights; a double push whose en-passant right exists only on the first occurrence; triangulation; history-cutting captures and pawn moves); EVERY sequence over menu + declare_draw + (at most one) offer_draw to depth 9 (quick) / 11-12 (thorough); menu moves illegal in the current state are attempted and must be refused. Regime B (fifty-move boundary, deviation bounding): from 6 roots (two of them K+R v K with a mate in one available throughout) a deterministic self-avoiding filler of reversible, rights-preserving moves (depth-first, first in sorted order) is the default behaviour; deviations are events spliced in at ply i (quiet pawn move, capture, rook move losing a right, king move losing both, castling, an unaccepted draw offer = a non-move entry in the action log, a capture by a pawn, a promotion); plus one undisturbed history of 280 (thorough 420) plies per root, every i in 0..=104 x every event kind with 1 deviation (quick) and every pair with 2 deviations (thorough); can_declare_draw() is compared after EVERY ply and at clock 95..=104 declare_draw() is also executed on a clone; whenever a mating or stalemating move is available (every 7th ply and from clock 95 on) it is played on a clone followed by declare_draw and accept_draw, which a finished game must refuse. Oracle: FIDE 9.2/9.3 on the reference game (no result, and clock >= 100 or current position occurred >= 3 times; identity = placement, side, rights, en-passant possibility; histories whose verdict differs between 'a legal en-passant capture exists' and 'an enemy pawn stands beside' are not judged, T3). states = histories, transitions = operations. distinct_nontrivial = histories/plies at which a claim is due";
+// ------------------------------------------------------------------------------------------
+// Regime C: repetitions with long spans.  Each side walks its king round a simple cycle of its
+// own (period a moves for White, b for Black; 2 = one step there and back); the position with
+// White to move after t move pairs is (w[t mod a], b[t mod b]), so every position recurs with gap
+// 2*lcm(a,b) plies and nothing else ever repeats.  All (a, b) in 2..=12 give first-to-third
+// spans of 8..528 plies; an optional deviation (a quiet pawn move that cuts the history, or an
+// unaccepted draw offer) is spliced in at every ply.
+
+pub const WALK_ROOT: &str = "4k3/7p/8/p7/P7/8/7P/4K3 w - - 0 1";
+
+/// a simple cycle of `len` king steps from `from` inside files a..f of the two given ranks
+fn king_cycle(from: Sq, len: usize, ranks: [i8; 2]) -> Option<Vec<Sq>> {
+    fn adj(a: Sq, b: Sq) -> bool {
+        a != b && (file_of(a) - file_of(b)).abs() <= 1 && (rank_of(a) - rank_of(b)).abs() <= 1
+    }
+    fn go(path: &mut Vec<Sq>, len: usize, cells: &[Sq]) -> bool {
+        let last = *path.last().unwrap();
+        if path.len() == len {
+            return len == 2 || adj(last, path[0]);
+        }
+        for c in cells {
+            if adj(last, *c) && !path.contains(c) {
+                path.push(*c);
+                if go(path, len, cells) {
+                    return true;
+                }
+                path.pop();
+            }
+        }
+        false
+    }
+    let cells: Vec<Sq> = (0..6i8).flat_map(|f| ranks.iter().map(move |r| sq(f, *r))).collect();
+    let mut path = vec![from];
+    if go(&mut path, len, &cells) {
+        Some(path)
+    } else {
+        None
+    }
+}
+
+#[derive(Clone, Copy, Debug, PartialEq, Eq)]
+pub enum WalkDev {
+    None,
+    PawnMove(usize),
+    Offer(usize),
+}
+
+pub fn build_walk(a: usize, b: usize, dev: WalkDev, plies: usize) -> Option<(RefPos, Vec<GOp>)> {
+    let start = RefPos::from_fen(WALK_ROOT).ok()?;
+    let wc = king_cycle(start.king_sq(Col::W)?, a, [0, 1])?;
+    let bc = king_cycle(start.king_sq(Col::B)?, b, [7, 6])?;
+    let (mut wi, mut bi) = (0usize, 0usize);
+    let mut p = start;
+    let mut ops = vec![];
+    let mut ply = 0usize;
+    while ply < plies {
+        match dev {
+            WalkDev::Offer(t) if t == ply && !matches!(ops.last(), Some(GOp::Offer(_))) => {
+                ops.push(GOp::Offer(p.stm));
+                continue;
+            }
+            _ => {}
+        }
+        let m = match dev {
+            WalkDev::PawnMove(t) if t == ply => {
+                let (f, t2) = if p.stm == Col::W { (sq(7, 1), sq(7, 2)) } else { (sq(7, 6), sq(7, 5)) };
+                RMove { from: f, to: t2, promo: None }
+            }
+            _ => {
+                if p.stm == Col::W {
+                    let m = RMove { from: wc[wi % a], to: wc[(wi + 1) % a], promo: None };
+                    wi += 1;
+                    m
+                } else {
+                    let m = RMove { from: bc[bi % b], to: bc[(bi + 1) % b], promo: None };
+                    bi += 1;
+                    m
+                }
+            }
+        };
+        if !p.legal_moves().contains(&m) {
+            return None;
+        }
+        p = p.apply(m);
+        ops.push(GOp::Move(m));
+        ply += 1;
+    }
+    Some((start, ops))
+}
+
+pub const RULE: &str = "Regime A (repetition): 8 roots, each with a fixed menu of 7-10 moves (knight and king shuffles; rooks/kings leaving and re-entering home squares so that placement repeats with different rights; a double push whose en-passant right exists only on the first occurrence; triangulation; history-cutting captures and pawn moves); EVERY sequence over menu + declare_draw + (at most one) offer_draw to depth 9 (quick) / 11-12 (thorough); menu moves illegal in the current state are attempted and must be refused. Regime B (fifty-move boundary, deviation bounding): from 6 roots (two of them K+R v K with a mate in one available throughout) a deterministic self-avoiding filler of reversible, rights-preserving moves (depth-first, first in sorted order) is the default behaviour; deviations are events spliced in at ply i (quiet pawn move, capture, rook move losing a right, king move losing both, castling, an unaccepted draw offer = a non-move entry in the action log, a capture by a pawn, a promotion); plus one undisturbed history of 280 (thorough 420) plies per root, every i in 0..=104 x every event kind with 1 deviation (quick) and every pair with 2 deviations (thorough); can_declare_draw() is compared after EVERY ply and at clock 95..=104 declare_draw() is also executed on a clone; whenever a mating or stalemating move is available (every 7th ply and from clock 95 on) it is played on a clone followed by declare_draw and accept_draw, which a finished game must refuse. Regime C (long-span repetition): both kings walk simple cycles of period a and b moves (a, b in 2..=12; every position recurs exactly every 2*lcm(a,b) plies, so first-to-third spans from 8 to 528 plies occur), for 140 plies (thorough 300), undisturbed and with one deviation (a history-cutting quiet pawn move, or an unaccepted draw offer) at EVERY ply (thorough; quick: every ply for the pawn move when 4*lcm < 100, every 3rd otherwise); can_declare_draw() compared after every ply and declare_draw() executed on a clone wherever the claim status changes. Oracle: FIDE 9.2/9.3 on the reference game (no result, and clock >= 100 or current position occurred >= 3 times; identity = placement, side, rights, en-passant possibility; histories whose verdict differs between 'a legal en-passant capture exists' and 'an enemy pawn stands beside' are not judged, T3). states = histories, transitions = operations. distinct_nontrivial = histories/plies at which a claim is due";
 
 pub fn run(tier: Tier) -> i32 {
     let run = Arc::new(Run::new("C11", tier, COUNTERS));
@@ -418,6 +516,45 @@ pub fn run(tier: Tier) -> i32 {
             run_history(&run, start, &h, &[]);
         }
     });
+    // ---- regime C
+    let walk_plies = tier.pick(140usize, 300usize);
+    let mut walk_jobs: Vec<(usize, usize, WalkDev)> = vec![];
+    fn gcd(a: usize, b: usize) -> usize {
+        if b == 0 {
+            a
+        } else {
+            gcd(b, a % b)
+        }
+    }
+    for a in 2..=12usize {
+        for b in 2..=12usize {
+            walk_jobs.push((a, b, WalkDev::None));
+            let lcm = a * b / gcd(a, b);
+            let dense = tier == Tier::Thorough || 4 * lcm < 100;
+            for t in (0..walk_plies.min(140)).step_by(if dense { 1 } else { 3 }) {
+                walk_jobs.push((a, b, WalkDev::PawnMove(t)));
+            }
+            for t in (0..walk_plies.min(140)).step_by(if tier == Tier::Thorough { 1 } else { 5 }) {
+                walk_jobs.push((a, b, WalkDev::Offer(t)));
+            }
+        }
+    }
+    walk_jobs.par_iter().for_each(|(a, b, dev)| {
+        if run.has_violation() || run.over_budget() {
+            return;
+        }
+        match build_walk(*a, *b, *dev, walk_plies) {
+            None => {
+                eprintln!("MACHINERY FAILURE: walk history a={a} b={b} {:?} cannot be built", dev);
+                std::process::exit(2);
+            }
+            Some((start, h)) => {
+                run.add("walk_histories", 1);
+                run_history_ext(&run, &start, &h, &format!("walk a={a} b={b} {:?}", dev), true);
+            }
+        }
+    });
+    run.note("walk_root", json!(WALK_ROOT));
     if run.over_budget() {
         run.cap(format!("wall-clock budget reached in regime B: {} of {} deviation histories run", run.get("filler_histories"), total));
     }
